@@ -152,7 +152,7 @@ def sync_order(ctx):
         (r"SyncController::wait_post_meta", None, [("bad_unless", "meta_written")]),
     ]
     ops, hits = _events(cfg, table)
-    _require(table, hits, "Sync::sync")
+    _require([table[2]], [hits[2]], "Sync::sync")   # Meta::write anchors; the waits / post-meta rows are what is checked
     flags = ["bitbox_waited", "beatree_waited", "meta_written"]
     qs = [PQuery("Sync::sync: wait_pre_meta(bitbox, beatree) -> Meta::write -> post_meta", cfg, ops, flags, {},
                  scenario="c04_commit_order", key="Sync::sync:order")]
@@ -374,7 +374,7 @@ def store_commit_poison(ctx):
         (r"Atomic(Bool|::<bool>)::store", r"poisoned", [("set", "stored")]),
     ]
     ops, hits = _events(cfg, table)
-    _require(table, hits, "Store::commit")
+    _require([table[1]], [hits[1]], "Store::commit")   # Sync::sync anchors
     # Err(e) return after sync: block moving the error into _0 (`_0 = Result::<(), anyhow::Error>::Err(`)
     errs = [bb for bb in cfg.order if any(re.match(r"_0 = Result::<.*>::Err\(", s) for s in cfg.blocks[bb].stmts)]
     if not errs:
@@ -390,7 +390,7 @@ def store_commit_poison(ctx):
     for bb in errs:
         ops3.setdefault(bb, []).append(("bad_if", "synced"))
     qs = [PQuery("Store::commit: poisoned is checked before Sync::sync", cfg, ops, ["loaded", "synced", "stored"], {},
-                 key="Store::commit:sync without poison check"),
+                 scenario="c14_ln_write_fails", key="Store::commit:sync without poison check"),
           PQuery("Store::commit: an Err from Sync::sync is returned only after poisoned was set", cfg, ops3,
                  ["loaded", "synced", "stored"], {}, scenario="c14_ln_write_fails", key="Store::commit:Err without poisoning"),
           PQuery("Store::commit: the Err return after sync is reachable", cfg,
@@ -481,7 +481,7 @@ def open_order(ctx):
         (r"bitbox::DB::open|DB::open", None, [("bad_unless", "validated")]),
     ]
     ops, hits = _events(cfg, table)
-    _require(table, hits, "Store::open")
+    _require(table[3:], hits[3:], "Store::open")   # Tree::open / DB::open anchor
     flags = ["locked", "meta_read", "validated"]
     qs = [PQuery("Store::open: lock -> Meta::read -> validate -> Tree::open / DB::open", cfg, ops, flags, {}, key="Store::open:order"),
           PQuery("Store::open: DB::open is reachable", cfg, {bb: [("bad", None)] for bb in hits[4]}, [], {}, expect="sat")]
@@ -516,7 +516,7 @@ def beatree_sync(ctx):
         (r"Fsyncer::fsync", r"ln_fsync", [("bad_unless", "prepared"), ("set", "ln")]),
     ]
     ops, hits = _events(cfg, table)
-    _require(table, hits, "beatree begin_sync task")
+    _require(table[:1], hits[:1], "beatree begin_sync task")   # prepare_sync anchors
     oks = _ok_blocks(cfg)
     if not oks:
         raise Unmatched("no Ok block in beatree begin_sync task")
@@ -538,14 +538,14 @@ def beatree_sync(ctx):
         (r"Fsyncer::wait", r"ln_fsync", [("bad_unless", "joined"), ("set", "w_ln")]),
     ]
     ops, hits = _events(cfg, table)
-    _require(table, hits, "beatree wait_pre_meta")
+    _require(table[:1], hits[:1], "beatree wait_pre_meta")   # join_task anchors
     oks = _ok_blocks(cfg)
     if not oks:
         raise Unmatched("no Ok block in beatree wait_pre_meta")
     for bb in oks:
         ops.setdefault(bb, []).extend([("bad_unless", "w_bbn"), ("bad_unless", "w_ln")])
     qs.append(PQuery("beatree wait_pre_meta: join -> wait(bbn fsync), wait(ln fsync) before Ok", cfg, ops, ["joined", "w_bbn", "w_ln"], {},
-                     key="beatree wait_pre_meta:Ok without waiting for fsync"))
+                     scenario="c04_commit_order", key="beatree wait_pre_meta:Ok without waiting for fsync"))
     qs.append(PQuery("beatree wait_pre_meta: Ok is reachable", cfg, {bb: [("bad", None)] for bb in oks}, [], {}, expect="sat"))
     o2, fl2, defs = _swallow_ops(cfg)
     if not defs:
@@ -650,7 +650,7 @@ def rollback_commit_order(ctx):
         table = [(r"SegmentedLog::append", None, [("set", "appended")]),
                  (r"push_recent", None, [("bad_unless", "appended")])]
         ops, hits = _events(cfg, table)
-        _require(table, hits, nm)
+        _require(table[1:], hits[1:], nm)   # push_recent anchors
         qs.append(PQuery("%s: push_recent only after seglog.append" % nm, cfg, ops, ["appended"], {}, key="%s:in-memory record before the durable append" % nm))
         qs.append(PQuery("%s: push_recent is reachable" % nm, cfg, {bb: [("bad", None)] for bb in hits[1]}, [], {}, expect="sat"))
         o2, fl2, defs = _swallow_ops(cfg)
@@ -824,6 +824,28 @@ def release_after_drain(ctx):
                      scenario="c20_release_order", key="Drop for Shared:lock released before the I/O pool drained"))
     qs.append(PQuery("Drop for Shared: return is reachable", cfg, {bb: [("bad", None)] for bb in rets}, [], {}, expect="sat"))
     enc.add("Drop for store::Shared @ nomt/src/store/mod.rs")
+
+    # the lock must live (and die) with the struct whose Drop drains the pool: Store::open moves the Flock
+    # into the same `store::Shared` value that owns the I/O pool
+    f = _fn(prog, r"^store::.*>::open$", "store/mod.rs")
+    cfg = pathsmt.Cfg(f)
+    ops = {}
+    n_aggr = 0
+    for bb in cfg.order:
+        b = cfg.blocks[bb]
+        for st in b.stmts:
+            if re.match(r"_\d+ = (store::)?Shared \{", st):
+                n_aggr += 1
+                if re.search(r"\bio_pool: move _\d+", st) and re.search(r"\bflock: move _\d+", st):
+                    ops.setdefault(bb, []).append(("set", "lock_with_pool"))
+    if n_aggr == 0:
+        raise Unmatched("Store::open no longer builds store::Shared")
+    oks = _ok_blocks(cfg)
+    for bb in oks:
+        ops.setdefault(bb, []).append(("bad_unless", "lock_with_pool"))
+    qs.append(PQuery("Store::open: the Flock is stored in the same store::Shared value as the I/O pool (whose Drop orders their release)", cfg, ops,
+                     ["lock_with_pool"], {}, scenario="c20_release_order", key="Store::open:lock not owned by the struct that drains the I/O pool"))
+    enc.add("store::Store::open @ nomt/src/store/mod.rs")
 
     f = _fn(prog, r"^io::<impl.*>::shutdown$", "io/mod.rs")
     cfg = pathsmt.Cfg(f)
